@@ -246,4 +246,18 @@ CLAIMS = {
                    'and is flushed before the buffer is cleared.',
         'not_decided': 'non-interleaving and counter consistency as trace properties over schedules; elision and percentage arithmetic.',
     },
+    'C07': {
+        'design': '5.7',
+        'technique': 'must-pass-through on the interrupt path + full-range/skip-exact cleanup loops + comparison contract + who-may-call (signal handlers) + durability order over clang CFG facts',
+        'decides': 'every interrupt branch of Builder::Build runs Cleanup before returning, returns result.exit_status() '
+                   '(ExitInterrupted = 130) and starts nothing; Cleanup collects the active edges, aborts the runner first, '
+                   'cleans every active edge and also the command that was itself killed by the signal; per edge every output '
+                   '(explicit and implicit) is removed unless its mtime is unchanged and always when the rule has a depfile, '
+                   'then the depfile, finally the lock file; children are signalled by process group (except console '
+                   'children), deleted afterwards, and destroying an unreaped subprocess waits for it; signal handlers make '
+                   'no calls and store only to volatile sig_atomic_t; log records are flushed before success / memory '
+                   'updates and rewrites go through ReplaceContent.',
+        'not_decided': 'a crash at an arbitrary instruction (SIGKILL), which needs the C08/C09 loaders and the dirty logic to '
+                       'compose at run time; real-signal timing.',
+    },
 }
